@@ -649,12 +649,18 @@ func (v *VResult) validateInvoke(c *Case, tr *Trace, rt *RT, i int, op Op, out O
 				if ii.MidKeys != nil && g.F != nil && sideFnOf(c, g.ID) == g.F {
 					midFn = true // registered (and perhaps already demanded) during this very Invoke
 				}
-				if ii.MidKeys != nil && g.Kind == KDeco {
-					// a decorator of a key whose constructor was registered
-					// during this very Invoke
-					for _, k := range g.Keys() {
-						if ii.MidKeys[k] {
-							midFn = true
+				if ii.MidKeys != nil {
+					// a key whose constructor was registered during this
+					// very Invoke has a decorator: the decorator and
+					// everything it depends on became reachable meanwhile
+					for _, d := range m.Fns {
+						if d.Kind != KDeco {
+							continue
+						}
+						for _, k := range d.Keys() {
+							if ii.MidKeys[k] {
+								midFn = true
+							}
 						}
 					}
 				}
